@@ -1,7 +1,7 @@
 (* C05 - Load balancers return only current, healthy members of the cluster.  Only statements; proofs by `exact`. *)
 From Coq Require Import List ZArith NArith Bool.
 From MV Require Import Lib.Interleave Gen.LBTokens Gen.RRTokens Model.LB Model.LBSnapshot Model.Edf Model.WRR Model.RRConc
-  Proofs.LB Proofs.LBSnapshot Proofs.WRR Proofs.RRConc.
+  Gen.HostSetTokens Model.HostSetOps Proofs.LB Proofs.LBSnapshot Proofs.WRR Proofs.RRConc Proofs.HostSetOps.
 Import ListNotations.
 Open Scope Z_scope.
 
@@ -160,6 +160,33 @@ Example c05_rr_concurrent_example :
      [0;1;0;2;1;3;0;1;0;3;1;0;1;0;1;0;1;0;1;0;1;0;1;0;1;0;1;0;1;0;1;0;1;0;1;0;0;0;0;0;0;0;0;0;0;0;0;0;0;0;0;1;1;1;1;1;1;1;1;1;1;1;1]%nat ts 4294967290%N hl))
   = [RIdx 4; RIdx 4].
 Proof. cbn zeta. split; [reflexivity|split; [split; [reflexivity|cbn; intuition discriminate]|vm_compute; reflexivity]]. Qed.
+
+(* The host set the cluster manager publishes (Model/HostSetOps.v: UpdateClusterHosts, AppendClusterHosts,
+   RemoveClusterHosts, each through NewHostSet).  `hs_append_distinct`: does AppendSimpleHostHandler publish a set that
+   is distinct by address - READ FROM cluster_manager.go.  For EVERY history of operations from the empty cluster: the
+   published set never names an address twice, and after RemoveClusterHosts no removed address is in it (so no policy
+   can return it: c05_member).  Membership after each operation: update_members / append_members / remove_members. *)
+Theorem c05_hostset_translator_ok : HostSetTokens_translator_ok = true.
+Proof. exact (eq_refl true). Qed.
+
+Theorem c05_published_hostset_distinct : forall ops, NoDup (mrun hs_append_distinct ops).
+Proof. exact (published_nodup_of_mode hs_append_distinct (eq_refl true)). Qed.
+Print Assumptions c05_published_hostset_distinct.
+
+Theorem c05_removed_host_gone : forall ops l a, In a l -> ~ In a (mrun hs_append_distinct (ops ++ [MRemove l])).
+Proof. exact (removed_gone_of_mode hs_append_distinct (eq_refl true)). Qed.
+Print Assumptions c05_removed_host_gone.
+
+Theorem c05_hostset_members : forall s l a,
+  (In a (mstep true s (MUpdate l)) <-> In a l) /\
+  (In a (mstep true s (MAppend l)) <-> In a l \/ In a s) /\
+  (NoDup s -> (In a (mstep true s (MRemove l)) <-> In a s /\ ~ In a l)).
+Proof. exact (fun s l a => conj (update_members s l a) (conj (append_members s l a) (remove_members s l a))). Qed.
+Print Assumptions c05_hostset_members.
+
+Theorem c05_append_nodistinct_refuted : ~ removed_gone_statement false.
+Proof. exact nodistinct_refuted. Qed.
+Print Assumptions c05_append_nodistinct_refuted.
 
 (* non-vacuity: a host set with one healthy host among unhealthy ones; every policy finds it *)
 Example c05_example :
